@@ -1692,6 +1692,9 @@ impl Node {
         channel_id: ChannelId,
         arc_self: &Arc<Node>,
     ) -> Result<(ChannelId, Option<ChannelSlot>), Status> {
+        // Lock order: tracker -> channels (as in setup_channel and get_heartbeat), so the
+        // height is read before the channel map is locked.
+        let blockheight = arc_self.get_tracker().height();
         let mut channels = self.get_channels();
         let policy = self.policy();
         if channels.len() >= policy.max_channels() {
@@ -1714,7 +1717,6 @@ impl Node {
         let keys =
             self.keys_manager.get_channel_keys_with_id(channel_id.clone(), channel_value_sat);
 
-        let blockheight = arc_self.get_tracker().height();
         let stub = ChannelStub {
             node: Arc::downgrade(arc_self),
             secp_ctx: Secp256k1::new(),
